@@ -7,6 +7,7 @@ import (
 	"os"
 	"os/exec"
 	"strings"
+	"syscall"
 	"time"
 )
 
@@ -16,6 +17,7 @@ type Solver struct {
 	argv   []string
 	cmd    *exec.Cmd
 	in     io.WriteCloser
+	w      *bufio.Writer
 	out    *bufio.Reader
 	defPos int
 	stack  []*Term
@@ -48,13 +50,25 @@ func NewSolver(spec string, timeoutMs int) *Solver {
 
 func (s *Solver) start() {
 	cmd := exec.Command(s.argv[0], s.argv[1:]...)
-	in, _ := cmd.StdinPipe()
-	out, _ := cmd.StdoutPipe()
+	// blocking pipes: a query is a synchronous round trip, the netpoller only adds futex traffic
+	var p1, p2 [2]int
+	if err := syscall.Pipe2(p1[:], syscall.O_CLOEXEC); err != nil {
+		panic(infraError{"pipe: " + err.Error()})
+	}
+	if err := syscall.Pipe2(p2[:], syscall.O_CLOEXEC); err != nil {
+		panic(infraError{"pipe: " + err.Error()})
+	}
+	childIn, in := os.NewFile(uintptr(p1[0]), "solver-stdin-r"), os.NewFile(uintptr(p1[1]), "solver-stdin-w")
+	out, childOut := os.NewFile(uintptr(p2[0]), "solver-stdout-r"), os.NewFile(uintptr(p2[1]), "solver-stdout-w")
+	cmd.Stdin, cmd.Stdout = childIn, childOut
 	cmd.Stderr = nil
 	if err := cmd.Start(); err != nil {
 		panic(infraError{"cannot start solver " + s.argv[0] + ": " + err.Error()})
 	}
+	childIn.Close()
+	childOut.Close()
 	s.cmd, s.in, s.out = cmd, in, bufio.NewReaderSize(out, 1<<16)
+	s.w = bufio.NewWriterSize(in, 1<<16)
 	s.defPos = 0
 	s.stack = nil
 	if p := os.Getenv("ZX_SMTLOG"); p != "" && s.log == nil {
@@ -67,6 +81,7 @@ func (s *Solver) start() {
 
 func (s *Solver) Close() {
 	if s.cmd != nil {
+		s.w.Flush()
 		s.in.Close()
 		s.cmd.Process.Kill()
 		s.cmd.Wait()
@@ -83,10 +98,12 @@ func (s *Solver) send(l string) {
 	if s.log != nil {
 		fmt.Fprintln(s.log, l)
 	}
-	io.WriteString(s.in, l+"\n")
+	s.w.WriteString(l)
+	s.w.WriteByte('\n')
 }
 
 func (s *Solver) line() string {
+	s.w.Flush()
 	l, err := s.out.ReadString('\n')
 	if err != nil {
 		panic(infraError{"solver " + s.Name + " died: " + err.Error()})
@@ -219,6 +236,33 @@ func (s *Solver) Check(pc []*Term, extra []*Term, get []*Term) (string, []string
 		r = "unknown"
 	}
 	s.Res[r]++
+	if el := time.Since(t0); el > 300*time.Millisecond && os.Getenv("ZX_SLOW") != "" {
+		fmt.Fprintf(os.Stderr, "SLOW %v %s pc=%d extra=", el.Round(time.Millisecond), r, len(pc))
+		for _, a := range extra {
+			fmt.Fprintf(os.Stderr, "%s ", describe(a, 3))
+		}
+		fmt.Fprintln(os.Stderr)
+	}
 	s.Time += time.Since(t0)
 	return r, vals
+}
+
+// describe prints a term's definition to the given depth (debugging).
+func describe(t *Term, depth int) string {
+	if t.isConst || t.op == "var" || depth == 0 || len(t.args) == 0 {
+		return t.name
+	}
+	parts := []string{t.op}
+	if t.op == "lin" {
+		parts = nil
+		for _, a := range t.lin.atoms {
+			parts = append(parts, fmt.Sprintf("%d*%s", int64(a.k), describe(a.t, depth-1)))
+		}
+		parts = append(parts, fmt.Sprintf("%d", int64(t.lin.c)))
+		return "(+ " + strings.Join(parts, " ") + ")"
+	}
+	for _, a := range t.args {
+		parts = append(parts, describe(a, depth-1))
+	}
+	return "(" + strings.Join(parts, " ") + ")"
 }
